@@ -2397,7 +2397,15 @@ impl Reference
 			(member, member_type)
 		});
 
-		let full_type = build_type_of_reference(value_type, &steps, false);
+		let full_type =
+			build_type_of_reference(value_type.clone(), &steps, false);
+		// If no variable can have that type (such as an array of array
+		// views), the conflict is between the variable and the value itself.
+		let full_type = match full_type
+		{
+			Some(Ok(built)) if !built.is_wellformed() => value_type,
+			full_type => full_type,
+		};
 		let assignment_error = match typer.put_symbol(base, full_type)
 		{
 			Ok(()) => match member
